@@ -101,10 +101,10 @@ def run(ctx):
     for name, stream in (('hC11', 'default_build'), ('hC11_hash', 'sparse_hashmap_build'), ('hC11_san', 'asan_ubsan')):
         if not exes.get(name): continue
         cases = [gen_case(ctx.rng, 9 if thorough and i % 4 == 0 else 8) for i in range(n if name == 'hC11' else n // 3)]
-        vlib.correspondence(ctx, stream, [exes[name]], drv, cases, nontrivial=nt, keep_prefix=1, oracle=oracle, valid=valid)
+        vlib.correspondence(ctx, stream, [exes[name]], drv, cases, nontrivial=nt, keep_prefix=1, oracle=oracle, valid=valid, timeout=240)
     # the encoding dispatcher at its size boundaries (many points, sparse graph)
     cases = [gen_boundary(ctx.rng) for _ in range(60 if thorough else 16)]
-    vlib.correspondence(ctx, 'dispatcher_boundaries', [exes['hC11']], drv, cases, nontrivial=nt, keep_prefix=1, oracle=oracle, valid=valid)
+    vlib.correspondence(ctx, 'dispatcher_boundaries', [exes['hC11']], drv, cases, nontrivial=nt, keep_prefix=1, oracle=oracle, valid=valid, timeout=240)
     ctx.extra['partial'] = PARTIAL
 
 
